@@ -98,20 +98,26 @@ def trimmed(text, isa, keep_extra=12, seed=0):
     return head + "".join(keep)
 
 
-def edit_semantic(text, isa, k):
-    """k-th semantic variant: +1.0 on the latency of every form of one mnemonic the kernels use,
-    and on every load latency (so every corpus kernel with a load or that mnemonic changes)."""
-    if k == 0:
+def edit_semantic(text, isa, k, kh=0):
+    """Semantic variant (k, kh): k times +1.0 on the latency of the forms of mnemonics the kernels use
+    (an edit late in the file), kh times +1.0 on every load latency in the header (an edit early in the
+    file).  Kept apart because a cache key computed over part of the file misses one of them."""
+    if k == 0 and kh == 0:
         return text
     head, entries = split_forms(text)
     targets = {"x86": ["vaddpd", "addq", "vmulpd"], "aarch64": ["fadd", "add", "fmul"]}[isa]
     out = []
     for e in entries:
         names = entry_names(e)
-        bump = sum(1 for j in range(k) if targets[j % len(targets)] in names)
+        bump = k if any(t in names for t in targets) else 0
         if bump:
             e = re.sub(r"(?m)^(\s*latency:\s*)([0-9.]+)", lambda m: "%s%s" % (m.group(1), float(m.group(2)) + bump), e)
         out.append(e)
+    # header data too: every load latency +k (so kernels with loads change even if their forms do not)
+    def bump_line(m):
+        return m.group(1) + re.sub(r"(\d+\.\d+)", lambda n: str(float(n.group(1)) + kh), m.group(2))
+    if kh:
+        head = re.sub(r"(?m)^(load_latency:)(.*)$", bump_line, head, count=1)
     return head + "".join(out)
 
 
@@ -350,7 +356,7 @@ def gen_ops(rng, isa, nk, tier, faults=True):
                 procs_.append(p)
             ops.append({"op": "run_group", "procs": procs_})
         elif r < 0.55:
-            ops.append({"op": "edit_model", "kind": rng.choice(["semantic", "semantic", "comment"])})
+            ops.append({"op": "edit_model", "kind": rng.choice(["semantic", "semantic", "header", "comment"])})
         elif r < 0.67:
             ops.append({"op": "plant", "which": rng.choice(["model", "isa"]), "where": rng.choice(["companion", "home"]),
                         "kind": rng.choice(["cut_zero", "cut_header", "cut_mid", "cut_lastbyte", "foreign_version", "valid"])})
@@ -367,7 +373,7 @@ def gen_ops(rng, isa, nk, tier, faults=True):
             an = []
             for i in range(k):
                 an.append({"kernel": rng.randrange(nk), "options": rng.choice(OPTION_SETS),
-                           "edit_before": (rng.choice(["semantic", "comment", None]) if i > 0 else None)})
+                           "edit_before": (rng.choice(["semantic", "header", "comment", None]) if i > 0 else None)})
             ops.append({"op": "long_lived", "analyses": an})
     # the bounded-liveness tail: after the last fault a single fault-free run must be right
     ops.append({"op": "run_group", "procs": [{"kernel": rng.randrange(nk), "options": []}], "tail": True})
@@ -384,8 +390,9 @@ def template_histories(rng, nk):
         return {"op": "run_group", "procs": [dict({"kernel": rng.randrange(nk), "options": rng.choice(OPTION_SETS)}, **kw) for _ in range(n)]}
     ro = {"op": "set_writable", "value": False}
     rw = {"op": "set_writable", "value": True}
-    sem = {"op": "edit_model", "kind": "semantic"}
+    sem = {"op": "edit_model", "kind": rng.choice(["semantic", "semantic", "header"])}
     com = {"op": "edit_model", "kind": "comment"}
+    hdr = {"op": "edit_model", "kind": "header"}
     T = {
         "cold_warm_warm": [run(), run(), run(2)],
         "racing_cold_then_warm": [run(rng.choice([2, 3, 4])), run()],
@@ -393,7 +400,7 @@ def template_histories(rng, nk):
         "home_cache_then_writable": [ro, run(), rw, run(), sem, ro, run(), run()],
         "shipped_cache_in_pkg_dir": [{"op": "plant", "which": "model", "where": "companion", "kind": "valid"},
                                      {"op": "plant", "which": "isa", "where": "companion", "kind": "valid"}, ro, run(), sem, run(), run()],
-        "edit_after_companion_cache": [run(), sem, run(), com, run(), sem, run()],
+        "edit_after_companion_cache": [run(), {"op": "edit_model", "kind": "semantic"}, run(), com, run(), hdr, run()],
         "edit_back_and_forth_home": [ro, run(), sem, run(), {"op": "wipe", "where": "companion"}, run()],
         "shadow_same_name_other_content": [run(), {"op": "shadow", "on": True}, run(), run(), {"op": "shadow", "on": False}, run()],
         "shadow_with_home_cache": [ro, run(), {"op": "shadow", "on": True}, run(), {"op": "shadow", "on": False}, run(), run()],
@@ -406,7 +413,7 @@ def template_histories(rng, nk):
         "long_lived_across_edits": [{"op": "long_lived", "analyses": [
             {"kernel": rng.randrange(nk), "options": []}, {"kernel": rng.randrange(nk), "options": [], "edit_before": "semantic"},
             {"kernel": rng.randrange(nk), "options": ["--fixed"], "edit_before": "comment"},
-            {"kernel": rng.randrange(nk), "options": [], "edit_before": "semantic"}]}, run()],
+            {"kernel": rng.randrange(nk), "options": [], "edit_before": "header"}]}, run()],
         "long_lived_home_cache": [ro, run(), {"op": "long_lived", "analyses": [
             {"kernel": rng.randrange(nk), "options": []}, {"kernel": rng.randrange(nk), "options": [], "edit_before": "semantic"},
             {"kernel": rng.randrange(nk), "options": []}]}, run()],
@@ -422,6 +429,7 @@ class Episode:
         self.isa = env.isa_of(self.arch)
         self.base_model, self.isa_text = load_texts(self.arch, spec.get("tiny", True))
         self.sem_k = 0
+        self.semh_k = 0
         self.com_k = 0
         self.shadow_k = None
         self.violations = []
@@ -434,10 +442,10 @@ class Episode:
         self.served_from_cache_probe = 0
 
     def model_text(self):
-        return edit_comment(edit_semantic(self.base_model, self.isa, self.sem_k), self.com_k)
+        return edit_comment(edit_semantic(self.base_model, self.isa, self.sem_k, self.semh_k), self.com_k)
 
     def shadow_text(self):
-        return edit_semantic(self.base_model, self.isa, self.shadow_k) + "# user copy\n"
+        return edit_semantic(self.base_model, self.isa, self.shadow_k, self.semh_k) + "# user copy\n"
 
     def viol(self, cls, detail, facts=None):
         self.violations.append({"property": PROP, "class": cls, "site": "model-cache", "detail": detail,
@@ -569,11 +577,16 @@ class Episode:
             if p["name"] not in per_task:
                 self.agg.probes["run_without_any_cache_access(read-only everything)"] += 1
 
-    def apply_edit(self, kind):
+    def bump_edit(self, kind):
         if kind == "semantic":
             self.sem_k += 1
+        elif kind == "header":
+            self.semh_k += 1
         else:
             self.com_k += 1
+
+    def apply_edit(self, kind):
+        self.bump_edit(kind)
         self.m.write(self.m.model_path, self.model_text())
         self.agg.stats["op_edit_" + kind] += 1
 
@@ -655,10 +668,7 @@ class Episode:
                     for a in op["analyses"]:
                         text = None
                         if a.get("edit_before"):
-                            if a["edit_before"] == "semantic":
-                                self.sem_k += 1
-                            else:
-                                self.com_k += 1
+                            self.bump_edit(a["edit_before"])
                             self.agg.stats["op_edit_" + a["edit_before"]] += 1
                             text = self.model_text()
                         eff = self.m.read(self.m.shadow_path) if shadowed else self.model_text()
